@@ -66,7 +66,7 @@ def gen_h2_spec(r: random.Random, flavor: str) -> dict:
         reqs = 1
         resp_delay = 0.1
         kinds.append("defer")
-    spec = gen_spec(r, flavor, proto="h2", proxy=None, n_origins=1, max_connections=1, n_callers=n, reqs=reqs,
+    spec = gen_spec(r, flavor, proto="h2", proxy=None, n_origins=1, max_connections=1, n_callers=n, reqs=reqs, snipes=False,
                     behaviours=["read", "read", "read", "partial", "head-only", "post"], fault_ops=[], latency="zero",
                     think=r.choice([0.0, 0.0, 0.2]) if "defer" not in script else 0.0, pool_timeout=None, resp_delay=resp_delay,
                     max_keepalive=None, keepalive_expiry=None, h2_script=script, retries=0, connect_fail=0.0,
